@@ -491,6 +491,8 @@ PLAN_C10 = {
         dict(what="all 2-call pipelines, one table, <= 1 row (sampled)", fams=UNARY, rows=1, steps=2, level=1, one_in=150, timeout=900,
              tier=("thorough",), **TB),
         dict(what="join/concat of two tables, <= 1 row (sampled)", fams=["stack", "binary"], rows=1, steps=2, level=2, one_in=10, **T12),
+        dict(what="join (same and differently named keys) followed by a select / drop / rename, <= 1 row (sampled)",
+             fams=["stack", "binary", "cols"], rows=1, steps=3, level=2, one_in=60, timeout=600, **T12),
     ],
     "sim": dict(what="random pipelines of 4 calls over 2 tables of <= 3 rows", num=(1500, 15000), rows=3, steps=4, **SIMT),
     "rule": "behaviours of Exec.tla; for each, every input column the code's columns_used() does not report is set to nulls and to "
@@ -670,6 +672,14 @@ def namings_for(case, k, rng):
     tabs = sorted(case["inp"])
     out = [relcase.Naming(cols={c: "u_" + c for c in allcols}, tabs={t: "tab_" + t for t in tabs})]   # ordinary names only
     out[0].injected = None
+    # ordinary but not bare identifiers: operators, digits, keywords, spaces (quoted names must still work)
+    odd = ["a-b", "2", "group", "select", "my col", "x.y", "Order", "a+b", "1st"]
+    cm2 = {c: "u_" + c for c in allcols}
+    for c, o in zip(rng.sample(allcols, min(2, len(allcols))), rng.sample(odd, 2)):
+        cm2[c] = o
+    nm2 = relcase.Naming(cols=cm2, tabs={t: "tab_" + t for t in tabs})
+    nm2.injected = None
+    out.append(nm2)
     for _ in range(k):
         cm = {c: "u_" + c for c in allcols}
         tm = {t: "tab_" + t for t in tabs}
@@ -679,7 +689,9 @@ def namings_for(case, k, rng):
             cm[rng.choice(allcols)] = inj
         elif mode == 1 and pool["suffixes"] and len(allcols) >= 2:
             a, b = rng.sample(allcols, 2)
-            inj = cm[a] + rng.choice(pool["suffixes"])
+            # half of the time the stem is another column (a real suffix collision), else a fresh stem
+            stem = cm[a] if rng.random() < 0.5 else "fresh_stem"
+            inj = stem + rng.choice(pool["suffixes"])
             cm[b] = inj
         else:
             inj = "%s_%d" % (rng.choice(pool["tabs"]).rstrip("_"), rng.randrange(0, 4))
@@ -721,6 +733,11 @@ def c15_classify(backend, nm, err, case):
         return None
     for fid, bk, pat in C15_KNOWN:
         if backend in bk and re.fullmatch(pat, inj):
+            if fid == "pandas_join_suffix_capture":
+                # the known defect is a collision with the suffixed copy of ANOTHER column: the stem must be a column
+                stem = re.sub(r"_tmp_right_col$", "", inj)
+                if stem not in set(nm.cols.values()):
+                    continue
             return fid
     return None
 
@@ -1050,6 +1067,9 @@ PLAN_C04 = {
              dict(what="fork / merge / re-join shapes over the micro alphabet: every 6-call behaviour that re-uses a sub-pipeline "
                        "(extend z=o+1 | x=x+1, windowed w=sum(y) | w=_size() by o, dup, swap, concat | inner join), <= 1 row",
                   fams=["extend", "wextend", "stack", "binary"], rows=1, steps=6, level=0, one_in=4, emitsel="fork", timeout=600, **TB),
+             dict(what="the same shapes over TWO tables with the same columns (identical steps over different sources): every 5-call "
+                       "behaviour that ends with one open pipeline, <= 1 row", fams=["extend", "wextend", "stack", "binary"], rows=1, steps=5,
+                  level=0, one_in=6, emitsel="fork", timeout=600, tabcols="MCB2_TabCols", colvals="MCB_ColVals"),
              dict(what="all 2-call extend / windowed extend sequences, <= 1 row (sampled)", fams=["extend", "extend2", "wextend"], rows=1,
                   steps=2, level=1, one_in=300, timeout=300, tier=("thorough",), **TB)],
     "sim": dict(what="random pipelines of 4 calls biased to shared sub-pipelines and consecutive extends",
